@@ -210,6 +210,10 @@ class World:
                 e = local.get(op[1]) or self.events.get(op[1])
                 if e is not None:
                     await self._await(who, e)
+            elif k == 'await_all':  # ('await_all', prefix[, n]): await, in creation order, (the first n of) the accepted events whose name starts with prefix
+                todo = [e for nm, e in list(self.events.items()) if nm.startswith(op[1]) and not any(e is r for r in self.rejected)]
+                for e in todo[:op[2] if len(op) > 2 else None]:
+                    await self._await(who, e)
             elif k == 'recurse':  # ('recurse', bus, mode, maxdepth): self-recursive dispatch of the handler's own event type
                 d = getattr(cur, 'depth', 0)
                 if d < op[3]:
@@ -453,6 +457,16 @@ class World:
         return fn
 
     # ---- main -------------------------------------------------------------------------------------
+    def _register(self, h):
+        fn = self.mkhandler(h)
+        for pat in (h['pat'] if isinstance(h['pat'], list) else [h['pat']]):
+            if pat == '*':
+                self.buses[h['bus']].on('*', fn)
+            elif pat.startswith('s:'):
+                self.buses[h['bus']].on(pat[2:], fn)
+            else:
+                self.buses[h['bus']].on(EVCLS[pat], fn)
+
     def build(self):
         for name, cfg in self.scn['buses'].items():
             kw = {}
@@ -461,6 +475,14 @@ class World:
             b = HBus(name=name, parallel_handlers=cfg.get('parallel', False), max_history_size=cfg.get('hist', 50), **kw)
             b.world = self
             self.buses[name] = b
+        if self.scn.get('reg'):
+            # explicit registration order: ('h', index into handlers) | ('f', src, dst); replaces forwards / fwd_first
+            for r in self.scn['reg']:
+                if r[0] == 'f':
+                    self.buses[r[1]].on('*', self.buses[r[2]].dispatch)
+                else:
+                    self._register(self.scn['handlers'][r[1]])
+            return
         if self.scn.get('fwd_first'):
             for a, b in self.scn.get('forwards', []):
                 self.buses[a].on('*', self.buses[b].dispatch)
